@@ -11,6 +11,8 @@
   chython/periodictable/base/query.py
       _validate, Query.hybridization.setter, ExtendedQuery.ring_sizes.setter, ExtendedQuery.charge.setter:
       the (operator, constant) pairs of their range tests
+  chython/files/daylight/smarts.py
+      cx_radicals = compile(r'...')                              pattern text
   chython/containers/bonds.py
       QueryBond.__init__: the tuple of allowed orders
 
@@ -167,6 +169,8 @@ def main(repo='/repo', dest=None):
     g_hyb = guards(method(q, 'Query', 'hybridization', p_q, True))
     g_ring = guards(method(q, 'ExtendedQuery', 'ring_sizes', p_q, True))
 
+    sm, p_sm = parse(repo, 'chython/files/daylight/smarts.py')
+    cx_src = compiled_pattern(module_assign(sm, 'cx_radicals', p_sm), p_sm, 'cx_radicals')
     bd, p_bd = parse(repo, 'chython/containers/bonds.py')
     init = method(bd, 'QueryBond', '__init__', p_bd)
     tuples = set()
@@ -212,6 +216,8 @@ def main(repo='/repo', dest=None):
         f'Definition validate_guards : list string := {lst(g_validate, cs)}.',
         f'Definition hybridization_guards : list string := {lst(g_hyb, cs)}.',
         f'Definition ring_sizes_guards : list string := {lst(g_ring, cs)}.',
+        '(* smarts.py: pattern text of the CXSMARTS radical block *)',
+        f'Definition smarts_cx_radicals_src : string := {cs(cx_src)}.',
         '(* QueryBond: allowed orders *)',
         f'Definition qbond_orders : list Z := {lst(orders, zraw)}.',
         ''])
